@@ -229,6 +229,37 @@ def c04(tier, seed, t0):
                                  "counterexamples are replayed through the real command line on real files of the same classes"])
 
 
+@register("C15")
+def c15(tier, seed, t0):
+    from harness import discover as H
+    res = R.run_pool(H.HNAME, H.chunks(tier), 150 if tier == "quick" else 1800, seed, tier,
+                     extra=dict(sample_rate=0.02 if tier == "quick" else 0.01, chunk_time=60 if tier == "quick" else 400))
+    agg = R.merge(res)
+    bounds = dict(tree="1..3 (quick) / 1..4 (thorough) entries below the current directory, every parent vector; kind of each entry "
+                       "solver-chosen: regular file | directory | other (fifo)",
+                  names="every character symbolic over '%s' ('.', the accepted suffix letters, an upper-case look-alike, 'a' = any other "
+                        "character), lengths per entry from %s" % (H.ALPHA, {k: v for k, v in H.LENGTHS.items()}),
+                  arguments=["none (current directory)", "one entry", "two entries (also the same one twice, a directory and a file inside it)",
+                             "an entry and a nonexistent path, in both orders", "one entry with --use-gitignore (ignored flag per file symbolic)"],
+                  asserted=["multiset of analysed files == regular files named with a .c/.h ending + regular non-hidden .c/.h files below named "
+                            "directories (through non-hidden directories), each once per mention", "File.basename and the verdict line carry the entry's own name",
+                            "a named regular file with another suffix is not analysed and gets a message", "a nonexistent path gives a non-zero exit status",
+                            "ignored files are left out with --use-gitignore"],
+                  outside="symbolic links, absolute / dotted / trailing-slash spellings of arguments, names with characters outside the alphabet, "
+                          "a file named exactly '.c' or '.h' (not specified), git exit status 128, more entries than the bound")
+    return R.report("C15", H.HNAME, tier, seed, agg, t0, bounds,
+                    functions=["norminette.__main__.main (argparse, selection loop over the growing work list, suffix / kind tests, missing-path "
+                               "abort, --use-gitignore filter, analysis loop, formatter call)", "norminette.file.File.__init__",
+                               "HumanizedErrorsFormatter.__str__"],
+                    assumptions=["stub (contract): pathlib.Path.exists/is_file/is_dir/name/suffix/stem/__str__ answered from the symbolic tree",
+                                 "stub (contract): glob.glob(pattern, recursive) = fnmatch per component, '**' = zero or more non-hidden directories, "
+                                 "hidden entries only matched by a pattern component starting with '.', any kind of entry can match",
+                                 "stub (contract): git check-ignore -q exits 0 for an ignored path and 1 otherwise",
+                                 "stub: Lexer yields no token, Registry.run records the file (every file is clean)",
+                                 "the stub contracts are validated against the real OS: sampled witnesses of the explored classes are rebuilt as real "
+                                 "directory trees and run through the real command line (traces_validated_against_impl)"])
+
+
 @register("C08")
 def c08(tier, seed, t0):
     from harness import errors_order as H
